@@ -939,9 +939,19 @@ pub fn run_w3(ctx: &Ctx, nslots: usize, cycles: u64, mode: u8, cov: &mut Cov) ->
         None
     };
     let mut evals = 0u64;
+    // C17: what the churn makes observable (where each new node lands, how the arena grows) as a digest
+    let mut churn_digest = Digest::default();
     for cyc in 1..=cycles {
         ctx.beacon.tick.fetch_add(1, Ordering::Relaxed);
         let k = (cyc as usize) % cur.len();
+        if ctx.is("C17") {
+            let last = hist.len() - 1;
+            churn_digest.u(hist[last].1 as u64);
+            churn_digest.u(arena.count() as u64);
+            if cyc % 257 == 0 {
+                churn_digest.s(&format!("{:?}", hist[last].0));
+            }
+        }
         if with_subtrees && cur.len() >= 3 && cyc % 3 == 0 {
             // chain the churned nodes into one tree and free them all in one call
             let ids: Vec<NodeId> = cur.iter().map(|i| hist[*i].0).collect();
@@ -1180,6 +1190,11 @@ pub fn run_w3(ctx: &Ctx, nslots: usize, cycles: u64, mode: u8, cov: &mut Cov) ->
             }
         }
         cov.distinct.insert(mix2(recycles[hist[cur[k]].1] as u64, (k as u64) << 40 | mode as u64));
+    }
+    if ctx.is("C17") {
+        churn_digest.u(arena.count() as u64);
+        cov.digests.push((workload.clone(), churn_digest.hex()));
+        evals += cycles;
     }
     cov.calls += cycles * 2;
     cov.evaluations += cycles;
